@@ -2,6 +2,7 @@ SPECIFICATION TSpec
 CONSTANTS
   MaxDepth = 2
   MaxKids = 2
+  Names = {"block", "call"}
   TraceFile = "trace.ndjson"
   VFile = "viol.ndjson"
 POSTCONDITION Accepted
